@@ -145,7 +145,7 @@ def agentStep (s : MonState) (toks : List String) (isB : Bool) (x : AgInfo) (p c
   let x := if p.lRaw != c.lRaw then { x with everLocal := c.locs.foldl (fun l q => if l.contains q.addr then l else q.addr :: l) x.everLocal } else x
   let mine := out.filter fun d => d.kind == .req && d.tid.startsWith (w ++ "#")
   let x := if mine.isEmpty then x else
-    { x with emitted := mine.foldl (fun l d => { tid := d.tid, src := d.src, dst := d.dst, uc := d.uc, nom := d.nom, t0 := s.now, t1 := t1, gen := x.gen } :: l) x.emitted }
+    { x with emitted := mine.foldl (fun l d => { tid := d.tid, src := d.src, dst := d.dst, uc := d.uc, nom := d.nom, t0 := s.now, t1 := t1, gen := x.gen, ln := s.lines } :: l) x.emitted }
   let x := match inc? with
     | some i =>
       let d := i.d
@@ -217,8 +217,8 @@ def stepActive (s : MonState) (toks : List String) (line : LineD) : MonState × 
     | _, _ => []
   let s1 : MonState := { s with a := ia, b := ib }
   let vMark := match toks, line.b with
-    | ["mark", "fairend"], some cb => c01Converged s1 line.a cb ++ c20Agreement s1 line.a cb
-    | "mark" :: _, some cb => c20Agreement s1 line.a cb
+    | ["mark", "fairend"], some cb => c01Converged s1 line.a cb ++ c20Agreement s1 line.a cb ++ c20Settled s1 line.a cb
+    | "mark" :: _, some cb => c20Agreement s1 line.a cb ++ c20Settled s1 line.a cb
     | _, _ => []
   -- session-level bookkeeping
   let s1 := netsOf s1 p.a line.a
@@ -237,6 +237,7 @@ def stepActive (s : MonState) (toks : List String) (line : LineD) : MonState × 
     | ["start", w, _, ru, rp] => { s1 with topoFrozen := true, badCreds := s1.badCreds || (s.hasB && (tokN ru, tokN rp) != peerCreds w) }
     | ["creds", w, ru, rp] => { s1 with anyCreds := true, badCreds := s1.badCreds || (s.hasB && (tokN ru, tokN rp) != peerCreds w) }
     | "inject" :: _ | "data" :: _ => { s1 with forged := true }
+    | "drop" :: _ => { s1 with lastDrop := some s.lines }
     | "restart" :: _ => { s1 with anyRestart := true }
     | "close" :: _ => { s1 with anyClose := true }
     | "renom" :: _ =>
